@@ -23,12 +23,15 @@ SnapU == {P(<<"A">>, "s:x", ""), P(<<"A">>, "s:x", "i:3"), P(<<"A", "B">>, "s:x"
 KeysU == {<<>>, <<"name">>}
 
 SeqsUpTo(U, n) == UNION {[1..k -> U] : k \in 0..n}
-RelsOver(n) == {[src |-> a, dst |-> b, type |-> "R", props |-> <<>>] : a, b \in 1..n}
+R(a, b) == [src |-> a, dst |-> b, type |-> "R", props |-> <<>>]
+\* relationship lists tried per snapshot size: none, one, a parallel pair, a loop + a back edge
+RelFams(n) == IF n = 1 THEN {<<>>, <<R(1, 1)>>}
+              ELSE {<<>>, <<R(1, 2)>>, <<R(1, 2), R(1, 2)>>, <<R(2, 1), R(1, 1)>>} \cup (IF n >= 3 THEN {<<R(1, 3), R(3, 2)>>} ELSE {})
 \* script-level graphs: relationships refer to node positions
 PreGraphs == UNION {{[nodes |-> ns, rels |-> rs] :
                        rs \in {<<>>} \cup (IF Len(ns) >= 2 THEN {<<[src |-> 1, dst |-> 2, type |-> "R", props |-> <<>>]>>} ELSE {})} :
                     ns \in SeqsUpTo(PreU, MaxPre)}
-SnapGraphs == UNION {{[nodes |-> ns, rels |-> SetSeq(rs)] : rs \in SUBSET RelsOver(Len(ns))} :
+SnapGraphs == UNION {{[nodes |-> ns, rels |-> rs] : rs \in RelFams(Len(ns))} :
                      ns \in (SeqsUpTo(SnapU, MaxSnap) \ {<<>>})}
 
 \* the store a Load leaves: ids = positions
@@ -57,9 +60,11 @@ ImportCut(snap, keys, kn, kr) ==
     /\ H([op |-> "Import", snap |-> snap, keys |-> keys])
 
 Next ==
+  /\ Len(hist) < MaxHist
+  /\
     \/ \E g \in PreGraphs : Load(g)
     \/ \E s \in SnapGraphs, k \in KeysU : ImportAll(s, k)
-    \/ \E s \in SnapGraphs, k \in KeysU, kn \in 0..MaxSnap, kr \in 0..(MaxSnap * MaxSnap) :
+    \/ \E s \in SnapGraphs, k \in KeysU, kn \in 0..MaxSnap, kr \in 0..2 :
           kn <= Len(s.nodes) /\ kr <= Len(s.rels) /\ ~(kn = Len(s.nodes) /\ kr = Len(s.rels)) /\ ImportCut(s, k, kn, kr)
 
 Spec == Init /\ [][Next]_vars
